@@ -10,7 +10,7 @@ C12 — property theorems.
 * `error_no_op_partial` / `error_no_op_full_fails`: an error answer means no cluster operation, except in the
   two corners today's code has (pin/update whose final Unpin fails; add?pin=false), witnessed in Lean.
 * `run_holds_partial` / `C12_full_fails`: every clause of the property on every input outside the three corners
-  (K12a unclean relayed path, K12b, K12c); the corners really fail.
+  (K12a unclean relayed path, K12b, K12c; round 8c: K12d repo/gc trailer); the corners really fail.
 The model is tied to the code by the correspondence run (checks/C12.py).
 -/
 import ClusterVerif.Lemmas.C12Flow
@@ -161,6 +161,48 @@ theorem add_unpin_fails_corner :
 /-- … and it is met when that Unpin goes through -/
 theorem add_nopin_typed_ok :
     holds witAdd (runWith Gen.C12.methods Gen.C12.routes true witAdd { root := [7], items := [[7]] }) = true := by decide
+
+/-! ### round 8c: the repo/gc corner (K12d) -/
+
+/-- K12d is real on the model of today's code: `POST /api/v0/repo/gc`, a peer's collection failed, no
+    `stream-errors=true`: 200 + `X-Stream-Error` although `Cluster.RepoGC` ran (`hijack_error_no_op`) -/
+theorem repoGC_corner_fails : holds witGC (run witGC { root := [], items := [[]] }) = false := by decide
+
+/-- … and ONLY `hijack_error_no_op` fails on it -/
+theorem repoGC_corner_only_error_no_op :
+    ((clauses witGC (run witGC { root := [], items := [[]] })).filter (fun c => !c.2)).map (·.1) = ["hijack_error_no_op"] := by
+  decide
+
+/-- the same collection with `stream-errors=true` (errors travel in the body): the property holds, not a corner -/
+theorem repoGC_stream_errors_ok :
+    holds { witGC with query := some (b!"stream-errors=true") }
+      (run { witGC with query := some (b!"stream-errors=true") } { root := [], items := [[]] }) = true ∧
+    corner typedUnpinNow { witGC with query := some (b!"stream-errors=true") } = false := by decide
+
+/-- the repo/gc corner is exactly "the collection reported an error and the request does not say `stream-errors=true`"
+    (the literal spelling; the first value wins), for every request that classifies as repo/gc -/
+theorem corner_repoGC_iff (typed : Bool) (i : Input) (p : Bytes) (sl : Option Bytes) (hd : pctDecode false i.path = some p)
+    (hcls : classify i.method p = some (.repoGC, sl)) :
+    corner typed i = true ↔ i.env.gcErr ≠ 0 ∧ qGet (parseQuery (i.query.getD [])) b!"stream-errors" ≠ b!"true" := by
+  simp [corner, hd, hcls, gcSerr]
+
+/-- a collection without errors is never in the corner, whatever the query -/
+theorem corner_repoGC_clean (typed : Bool) (i : Input) (p : Bytes) (sl : Option Bytes) (hd : pctDecode false i.path = some p)
+    (hcls : classify i.method p = some (.repoGC, sl)) (h0 : i.env.gcErr = 0) : corner typed i = false := by
+  simp [corner, hd, hcls, gcSerr, h0]
+
+/-- the model's repo/gc answer for EVERY environment and query: an RPC failure is a plain 500 and nothing ran; otherwise
+    200, the RPC succeeded, and the trailer is set iff `gcSerr` — so an error answer after the operation is exactly K12d -/
+theorem repoGC_model_shape (e : Env) (q : List (Bytes × Bytes)) :
+    (e.fail .repoGC = true → repoGCH e q = { status := 500, rpcs := [{ name := .repoGC, ok := false }] }) ∧
+    (e.fail .repoGC = false → (repoGCH e q).status = 200 ∧ (repoGCH e q).rpcs = [{ name := .repoGC }] ∧
+      ((repoGCH e q).serr = true ↔ e.gcErr ≠ 0 ∧ qGet q b!"stream-errors" ≠ b!"true")) := by
+  constructor
+  · intro h; simp [repoGCH, h]
+  · intro h; simp [repoGCH, h, gcSerr]
+
+example : classify witGC.method (b!"/api/v0/repo/gc") = some (.repoGC, none) ∧ corner typedUnpinNow witGC = true ∧
+    gcSerr { gcErr := 2 } [(b!"stream-errors", b!"True")] = true := by decide
 
 /-! ## Round 8: the relay set-up of `New` (transport, timeouts) interpreted by the model -/
 
@@ -551,12 +593,54 @@ theorem pinLs_flow_agrees (e : Env) (q : List (Bytes × Bytes)) (v : Nat → Boo
     simp [Gen.C12.pinLsHandlerFlow, interp, stepEvs, guardHolds, failTail, armEvs, armReturns, absEv, statusOf, opOks,
       pinLsH, HOut.abs, hv, he, hc, hg, hf, h17]
 
-theorem repoGC_flow_agrees (e : Env) (v : Nat → Bool) :
-    absEv (interp v (fun k => k == 2 && e.fail .repoGC) 0 Gen.C12.repoGCHandlerFlow) = (repoGCH e).abs := by
+/-- repo/gc (round 8c: the trailer included): with atom 63 (`!streamErrors && mErrStr != ""`) read as `gcSerr`, the
+    interpreted structure and the hand-written model agree on status, RPC outcomes AND on whether `X-Stream-Error` is set -/
+theorem repoGC_flow_agrees (e : Env) (q : List (Bytes × Bytes)) (v : Nat → Bool) (h63 : v 63 = gcSerr e q) :
+    absEv (interp v (fun k => k == 2 && e.fail .repoGC) 0 Gen.C12.repoGCHandlerFlow) = (repoGCH e q).abs ∧
+    (interp v (fun k => k == 2 && e.fail .repoGC) 0 Gen.C12.repoGCHandlerFlow).contains .serr = (repoGCH e q).serr := by
   cases hf : e.fail .repoGC <;> cases h58 : v 58 <;> cases h59 : v 59 <;> cases h60 : v 60 <;> cases h61 : v 61 <;>
-    cases h63 : v 63 <;>
+    cases hg : gcSerr e q <;>
     simp [Gen.C12.repoGCHandlerFlow, interp, stepEvs, guardHolds, failTail, armEvs, armReturns, absEv, statusOf, opOks,
-      repoGCH, HOut.abs, hf, h58, h59, h60, h61, h63]
+      repoGCH, HOut.abs, hf, h58, h59, h60, h61, h63, hg]
+
+/-- repo/stat (round 8c): the interpreted structure and the hand-written model agree on the status, on the outcome of the one
+    plain RPC (`Consensus.Peers`), on the MultiCall being issued iff `Peers` succeeded, and the model lists after `Peers` exactly one
+    `RepoStat` outcome per peer (none when `Peers` failed) — every environment, every valuation of the loop atoms -/
+theorem repoStat_flow_agrees (e : Env) (v : Nat → Bool) :
+    statusOf (interp v (fun k => k == 1 && e.fail .peers) 0 Gen.C12.repoStatHandlerFlow) = (repoStatH e).status ∧
+    opOks (interp v (fun k => k == 1 && e.fail .peers) 0 Gen.C12.repoStatHandlerFlow) = ((repoStatH e).rpcs.take 1).map (·.ok) ∧
+    (interp v (fun k => k == 1 && e.fail .peers) 0 Gen.C12.repoStatHandlerFlow).contains (.multi 22 49) = !(e.fail .peers) ∧
+    ((repoStatH e).rpcs.drop 1).length = (if e.fail .peers then 0 else e.npeers) ∧
+    ((repoStatH e).rpcs.drop 1).all (fun r => r.name == .repoStat) = true := by
+  cases hf : e.fail .peers <;> cases h44 : v 44 <;> cases h50 : v 50 <;> cases h51 : v 51 <;> cases h52 : v 52 <;>
+    simp [Gen.C12.repoStatHandlerFlow, interp, stepEvs, guardHolds, failTail, armEvs, armReturns, statusOf, opOks,
+      repoStatH, hf, h44, h50, h51, h52]
+
+example : statusOf (interp (fun _ => false) (fun k => k == 1 && ({ fails := [.peers] } : Env).fail .peers) 0
+    Gen.C12.repoStatHandlerFlow) = 500 := by decide
+
+/-- the adder of the add model succeeds (root present, body / options accepted, block RPCs and `Cluster.Pin` succeed) -/
+def addAdderOk (e : Env) (q : List (Bytes × Bytes)) : Bool :=
+  !(addNoRoot e q || e.ing == 1 || e.fail .blockAllocate || e.fail .blockPut || e.fail .pin)
+
+/-- the failure script of `addHandlerFlow` that corresponds to an environment: positions 1 (MultipartReader), 4
+    (AddParamsFromQuery), 6 (AddMultipartHTTPHandler), 8 (the trailing Cluster.Unpin) -/
+def addScript (e : Env) (q : List (Bytes × Bytes)) (k : Nat) : Bool :=
+  (k == 1 && e.ing == 0) || (k == 4 && addParamsErr q) || (k == 6 && !addAdderOk e q) || (k == 8 && e.fail .unpin)
+
+/-- NOT PROVED (round 8c ran out of time: the direct 12-way Boolean case split exceeds the heartbeat limit; needs staged
+    rewriting per arm of `addH`). Statement kept: `addHandlerFlow` and `addH` agree on the trailing-Unpin outcomes, on the plain
+    500 of the arms before the adder, and on status / X-Stream-Error once the adder succeeded. -/
+def add_flow_agrees : Prop :=
+  ∀ (e : Env) (q : List (Bytes × Bytes)) (obs : AddObs) (v : Nat → Bool),
+    v 34 = (qGet q b!"only-hash" == b!"true") → v 40 = !(qGet q b!"pin" == b!"false") →
+    opOks (interp v (addScript e q) 0 Gen.C12.addHandlerFlow) =
+      (((addH true e q obs).rpcs.filter (fun r => r.name == .unpin)).map (·.ok)) ∧
+    ((interp v (addScript e q) 0 Gen.C12.addHandlerFlow).any (fun ev => ev == .adder true || ev == .adder false) = false →
+      addH true e q obs = { status := 500 } ∧ statusOf (interp v (addScript e q) 0 Gen.C12.addHandlerFlow) = 500) ∧
+    ((interp v (addScript e q) 0 Gen.C12.addHandlerFlow).contains (.adder true) = true →
+      (addH true e q obs).status = 200 ∧
+      (addH true e q obs).serr = ((interp v (addScript e q) 0 Gen.C12.addHandlerFlow).contains .serr && addStream q))
 
 /-- pin/update with at least two arguments -/
 theorem pinUpdate_flow_agrees (e : Env) (q : List (Bytes × Bytes)) (v : Nat → Bool) (frm tgt : Bytes) (rest : List Bytes)
